@@ -213,6 +213,18 @@ def eq0_bit(bits):
         return 1
     if len(nz) == 1 and nz[0] != TOP:
         return b_not(nz[0])
+    # (x ^ y) == 0 is x == y: bits that are the exclusive-or of two atoms compare those atoms
+    if any(isinstance(x, tuple) and x[0] == 'xor' for x in nz) and all(is_atom(x) or (isinstance(x, tuple) and x[0] == 'xor' and len(x[1]) == 2) for x in nz):
+        la, lb = [], []
+        for x in nz:
+            if is_atom(x):
+                la.append(x)
+                lb.append(0)
+            else:
+                u, v = sorted(x[1], key=repr)
+                la.append(u)
+                lb.append(atom_neg(v) if x[2] else v)
+        return eq_bit(tuple(la), tuple(lb))
     # all-literal: conjunction of negations
     if all(is_atom(x) for x in nz) and len(nz) <= 4:
         return _mk('and', frozenset(atom_neg(x) for x in nz))
